@@ -1,6 +1,6 @@
 SPECIFICATION Spec
 CONSTANTS
-  NCalls = 18
+  NCalls = 21
   MaxLen = 3
 INVARIANT ModesRestored
 INVARIANT NoLeak
